@@ -263,7 +263,8 @@ func (k Keeper) GetByzantineValidators(ctx sdk.Context, misbehaviour ibctmtypes.
 	// create a map with the validators' address that signed header1
 	header1Signers := map[string]int{}
 	for idx, sign := range lightBlock1.Commit.Signatures {
-		if sign.BlockIDFlag == tmtypes.BlockIDFlagAbsent {
+		// only a signature for the block itself counts: an absent validator or one that voted nil did not sign the header
+		if sign.BlockIDFlag != tmtypes.BlockIDFlagCommit {
 			continue
 		}
 		header1Signers[sign.ValidatorAddress.String()] = idx
@@ -271,7 +272,7 @@ func (k Keeper) GetByzantineValidators(ctx sdk.Context, misbehaviour ibctmtypes.
 
 	// iterate over the header2 signers and check if they signed header1
 	for sigIdxHeader2, sign := range lightBlock2.Commit.Signatures {
-		if sign.BlockIDFlag == tmtypes.BlockIDFlagAbsent {
+		if sign.BlockIDFlag != tmtypes.BlockIDFlagCommit {
 			continue
 		}
 		if sigIdxHeader1, ok := header1Signers[sign.ValidatorAddress.String()]; ok {
